@@ -1,3 +1,641 @@
 package main
 
-func runC20(c *runCtx) {}
+import (
+	"bufio"
+	"bytes"
+	"context"
+	"encoding/json"
+	"fmt"
+	"math/rand"
+	nethttp "net/http"
+	"net/url"
+	"path/filepath"
+	"strings"
+	"sync"
+	"time"
+
+	"github.com/resonatehq/resonate/internal/app/subsystems/api/grpc/pb"
+	"github.com/resonatehq/resonate/internal/verifh/vh"
+	"github.com/resonatehq/resonate/pkg/promise"
+	"github.com/resonatehq/resonate/pkg/schedule"
+)
+
+// C20: round-trip ledger. Every client-supplied datum written through one
+// protocol must come back byte for byte through either protocol, in search
+// results, claim payloads, notifications and dispatched messages, and after a
+// restart; derived ids must embed the client id unaltered.
+
+var idPieces = []string{"a", "Z", "0", "/", ":", "<", "&", ">", `"`, "'", "%", "+", " ", "~", ".", "-", "_", "=", "?", "#", "é", "é", "日本", "ß", "İ", "\t", "\x01", "\x7f", "%2F", "%00", "..", "{{.id}}", "\\", "|", "@", ";", ","}
+
+func genId(r *rand.Rand, n int, tag string) string {
+	var sb strings.Builder
+	sb.WriteString(tag)
+	for i := 0; i < n; i++ {
+		sb.WriteString(idPieces[r.Intn(len(idPieces))])
+	}
+	if r.Intn(25) == 0 {
+		sb.WriteString(strings.Repeat("long", 500+r.Intn(500)))
+	}
+	// ids must stay addressable in a URL path: no empty segments, no leading slash, no dot segments
+	s := sb.String()
+	for strings.Contains(s, "//") {
+		s = strings.ReplaceAll(s, "//", "/x/")
+	}
+	s = strings.ReplaceAll(s, "/../", "/._./")
+	s = strings.ReplaceAll(s, "/./", "/._/")
+	s = strings.TrimSuffix(s, "/")
+	s = strings.TrimSuffix(s, "/..")
+	s = strings.TrimSuffix(s, "/.")
+	return s
+}
+
+func genBytes(r *rand.Rand) []byte {
+	switch r.Intn(6) {
+	case 0:
+		return nil
+	case 1:
+		return []byte{}
+	case 2:
+		b := make([]byte, 1+r.Intn(64))
+		r.Read(b)
+		return b
+	case 3:
+		b := make([]byte, 1000+r.Intn(64000))
+		r.Read(b)
+		return b
+	case 4:
+		return []byte("\x00\x00\xff\xfe\"\\\n<&>")
+	}
+	return []byte(`{"json":"looking","n":1e3}`)
+}
+
+func genMap(r *rand.Rand, routing string) map[string]string {
+	var m map[string]string
+	switch r.Intn(5) {
+	case 0:
+		m = nil
+	case 1:
+		m = map[string]string{}
+	case 2:
+		m = map[string]string{"": "v", "k": ""}
+	case 3:
+		m = map[string]string{"a.b": "c.d", "$.x": "1", "k'\"": "<&>", "日": "é", "k with space": " v ", "UP": "low", "up": "LOW"}
+	default:
+		m = map[string]string{"plain": "value", "n": fmt.Sprint(r.Int63())}
+	}
+	if routing != "" {
+		if m == nil {
+			m = map[string]string{}
+		}
+		m["resonate:invoke"] = routing
+	}
+	return m
+}
+
+var timeouts = []int64{0, 1, -1, 2147483647, 2147483648, -2147483648, -2147483649, 9007199254740991, 9007199254740993, -9007199254740993, 9223372036854775807, -9223372036854775808}
+
+func bEq(a, b []byte) bool { return bytes.Equal(a, b) }
+
+func mEq(a, b map[string]string) bool {
+	if len(a) != len(b) {
+		return false
+	}
+	for k, v := range a {
+		if w, ok := b[k]; !ok || w != v {
+			return false
+		}
+	}
+	return true
+}
+
+type wantPromise struct {
+	Id       string
+	Data     []byte
+	Headers  map[string]string
+	Tags     map[string]string
+	Timeout  int64
+	KeyC     string
+	State    string
+	VData    []byte
+	VHeaders map[string]string
+	KeyU     string
+}
+
+func (w wantPromise) cmpHTTP(body []byte) string {
+	var g promise.Promise
+	if err := json.Unmarshal(body, &g); err != nil {
+		return "reply does not parse as a promise: " + clipS(string(body))
+	}
+	kc, ku := "", ""
+	if g.IdempotencyKeyForCreate != nil {
+		kc = string(*g.IdempotencyKeyForCreate)
+	}
+	if g.IdempotencyKeyForComplete != nil {
+		ku = string(*g.IdempotencyKeyForComplete)
+	}
+	return w.cmp(g.Id, g.Param.Data, g.Param.Headers, g.Tags, g.Timeout, kc, g.State.String(), g.Value.Data, g.Value.Headers, ku)
+}
+
+func (w wantPromise) cmpPB(g *pb.Promise) string {
+	if g == nil {
+		return "no promise in the reply"
+	}
+	var pd, vd []byte
+	var ph, vhh map[string]string
+	if g.Param != nil {
+		pd, ph = g.Param.Data, g.Param.Headers
+	}
+	if g.Value != nil {
+		vd, vhh = g.Value.Data, g.Value.Headers
+	}
+	return w.cmp(g.Id, pd, ph, g.Tags, g.Timeout, g.IdempotencyKeyForCreate, g.State.String(), vd, vhh, g.IdempotencyKeyForComplete)
+}
+
+func (w wantPromise) cmp(id string, pd []byte, ph, tags map[string]string, to int64, kc, st string, vd []byte, vhh map[string]string, ku string) string {
+	var diffs []string
+	if id != w.Id {
+		diffs = append(diffs, fmt.Sprintf("id %q != %q", clipS(id), clipS(w.Id)))
+	}
+	if !bEq(pd, w.Data) {
+		diffs = append(diffs, fmt.Sprintf("param data %d bytes != %d bytes supplied", len(pd), len(w.Data)))
+	}
+	if !mEq(ph, w.Headers) {
+		diffs = append(diffs, fmt.Sprintf("param headers %v != %v", ph, w.Headers))
+	}
+	if !mEq(tags, w.Tags) {
+		diffs = append(diffs, fmt.Sprintf("tags %v != %v", tags, w.Tags))
+	}
+	if to != w.Timeout {
+		diffs = append(diffs, fmt.Sprintf("timeout %d != %d", to, w.Timeout))
+	}
+	if kc != w.KeyC {
+		diffs = append(diffs, fmt.Sprintf("create key %q != %q", kc, w.KeyC))
+	}
+	if w.State != "" {
+		if st != w.State {
+			diffs = append(diffs, fmt.Sprintf("state %s != %s", st, w.State))
+		}
+		if !bEq(vd, w.VData) {
+			diffs = append(diffs, fmt.Sprintf("value data %d bytes != %d bytes supplied", len(vd), len(w.VData)))
+		}
+		if !mEq(vhh, w.VHeaders) {
+			diffs = append(diffs, fmt.Sprintf("value headers %v != %v", vhh, w.VHeaders))
+		}
+		if ku != w.KeyU {
+			diffs = append(diffs, fmt.Sprintf("complete key %q != %q", ku, w.KeyU))
+		}
+	}
+	return strings.Join(diffs, "; ")
+}
+
+func clipS(s string) string {
+	if len(s) > 120 {
+		return s[:60] + fmt.Sprintf("..(%d bytes)..", len(s)) + s[len(s)-30:]
+	}
+	return s
+}
+
+func escPath(id string) string {
+	parts := strings.Split(id, "/")
+	for i, p := range parts {
+		parts[i] = url.PathEscape(p)
+	}
+	return strings.Join(parts, "/")
+}
+
+// sse listens on the poll transport and collects message bodies.
+type sse struct {
+	mu   sync.Mutex
+	msgs []string
+	stop func()
+}
+
+func listen(addr, group, id string) *sse {
+	l := &sse{}
+	ctx, cancel := context.WithCancel(context.Background())
+	l.stop = cancel
+	req, _ := nethttp.NewRequestWithContext(ctx, "GET", "http://"+addr+"/"+group+"/"+id, nil)
+	ready := make(chan bool, 1)
+	go func() {
+		res, err := nethttp.DefaultClient.Do(req)
+		if err != nil {
+			ready <- false
+			return
+		}
+		defer res.Body.Close()
+		ready <- true
+		sc := bufio.NewScanner(res.Body)
+		sc.Buffer(make([]byte, 1<<20), 1<<28)
+		for sc.Scan() {
+			line := sc.Text()
+			if strings.HasPrefix(line, "data: ") {
+				l.mu.Lock()
+				l.msgs = append(l.msgs, strings.TrimPrefix(line, "data: "))
+				l.mu.Unlock()
+			}
+		}
+	}()
+	select {
+	case <-ready:
+	case <-time.After(5 * time.Second):
+	}
+	time.Sleep(50 * time.Millisecond)
+	return l
+}
+
+func (l *sse) all() []string {
+	l.mu.Lock()
+	defer l.mu.Unlock()
+	return append([]string{}, l.msgs...)
+}
+
+func runC20(c *runCtx) {
+	n := 400
+	if c.tier == "thorough" {
+		n = 20000
+	}
+	srv := NewServer(filepath.Join(c.scratch, "main"))
+	defer srv.Close()
+	if err := srv.Start(); err != nil {
+		fmt.Println("CHECK-BROKEN cannot start the server:", err)
+		panic(err)
+	}
+	ctx := context.Background()
+	lst := listen(srv.pollAddr, "grp", "lid")
+	type later struct {
+		w   wantPromise
+		sid string
+		sw  *schedule.Schedule
+		occ string
+	}
+	var recheck []later
+	fail := func(obj int, sig, f string, a ...any) {
+		c.violate(sig, fmt.Sprintf("object %d: ", obj)+fmt.Sprintf(f, a...), map[string]any{"object": obj})
+	}
+	for i := 0; i < n; i++ {
+		if i%c.nshards != c.shard {
+			continue
+		}
+		r := rand.New(rand.NewSource(vh.Mix(c.seed, "c20", i)))
+		c.logCur(map[string]any{"family": "c20", "object": i})
+		viaHTTP := r.Intn(2) == 0
+		tag := fmt.Sprintf("o%d.", i)
+		routed := r.Intn(3) == 0
+		routing := ""
+		if routed {
+			routing = "poll://grp/lid"
+		}
+		w := wantPromise{Id: genId(r, 1+r.Intn(8), tag), Data: genBytes(r), Headers: genMap(r, ""), Tags: genMap(r, routing), Timeout: timeouts[r.Intn(len(timeouts))]}
+		if r.Intn(2) == 0 {
+			w.Timeout = time.Now().UnixMilli() + 3600_000
+		}
+		if r.Intn(2) == 0 {
+			w.KeyC = genId(r, 3, "k")
+		}
+		pending := w.Timeout > time.Now().UnixMilli()+60_000
+		c.rep.Evaluations++
+		c.rep.Nontriv(vh.Hash("c20", i))
+		// ---- 1. create
+		if viaHTTP {
+			hdr := map[string]string{}
+			if w.KeyC != "" {
+				if !headerSafe(w.KeyC) {
+					w.KeyC = "k-plain"
+				}
+				hdr["idempotency-key"] = w.KeyC
+			}
+			body := map[string]any{"id": w.Id, "param": valueJSON(w.Headers, w.Data), "timeout": w.Timeout}
+			if w.Tags != nil {
+				body["tags"] = w.Tags
+			}
+			rp := srv.JSON("POST", "/promises", hdr, body)
+			if rp.Err != nil || rp.Status != 201 {
+				fail(i, "create:refused:http", "create %q over HTTP answered %d %s (%v)", clipS(w.Id), rp.Status, clipS(string(rp.Body)), rp.Err)
+				continue
+			}
+			if pending {
+				if d := w.cmpHTTP(rp.Body); d != "" {
+					fail(i, "roundtrip:create-reply:http", "create reply differs: %s", d)
+				}
+			}
+		} else {
+			res, err := srv.Promises().CreatePromise(ctx, &pb.CreatePromiseRequest{Id: w.Id, IdempotencyKey: w.KeyC, Param: &pb.Value{Headers: w.Headers, Data: w.Data}, Timeout: w.Timeout, Tags: w.Tags})
+			if err != nil {
+				fail(i, "create:refused:grpc", "create %q over gRPC failed: %v", clipS(w.Id), err)
+				continue
+			}
+			if pending {
+				if d := w.cmpPB(res.Promise); d != "" {
+					fail(i, "roundtrip:create-reply:grpc", "create reply differs: %s", d)
+				}
+			}
+		}
+		c.rep.Events++
+		if !pending {
+			// the promise times out at once; its creation half must still come back exactly
+			w.State = ""
+		}
+		readBoth := func(stage string) {
+			rp := srv.Do("GET", "/promises/"+escPath(w.Id), nil, nil)
+			if rp.Err != nil || rp.Status != 200 {
+				fail(i, "roundtrip:read:http:not-found", "%s: GET /promises/%s answered %d (%v): the id is not found under its exact spelling", stage, clipS(escPath(w.Id)), rp.Status, rp.Err)
+			} else if d := w.cmpHTTP(rp.Body); d != "" {
+				fail(i, "roundtrip:read:http", "%s: HTTP read differs: %s", stage, d)
+			}
+			res, err := srv.Promises().ReadPromise(ctx, &pb.ReadPromiseRequest{Id: w.Id})
+			if err != nil {
+				fail(i, "roundtrip:read:grpc:not-found", "%s: gRPC read of %q failed: %v", stage, clipS(w.Id), err)
+			} else if d := w.cmpPB(res.Promise); d != "" {
+				fail(i, "roundtrip:read:grpc", "%s: gRPC read differs: %s", stage, d)
+			}
+			c.rep.Events += 2
+		}
+		readBoth("after create")
+		// a sibling id that differs only in case / whitespace / normalisation form must be a different promise
+		for _, other := range []string{strings.ToUpper(w.Id), strings.ToLower(w.Id), w.Id + " ", " " + w.Id, strings.ReplaceAll(w.Id, "é", "é")} {
+			if other == w.Id {
+				continue
+			}
+			res, err := srv.Promises().ReadPromise(ctx, &pb.ReadPromiseRequest{Id: other})
+			if err == nil && res.Promise != nil && res.Promise.Id != other {
+				fail(i, "ids:confused", "reading %q returned the promise %q", clipS(other), clipS(res.Promise.Id))
+			}
+		}
+		// ---- search by exact id (ids without pattern metacharacters)
+		if !strings.ContainsAny(w.Id, "*%_\\") && len(w.Id) < 500 && isLowerASCII(w.Id) {
+			rp := srv.Do("GET", "/promises?id="+url.QueryEscape(w.Id)+"&limit=10", nil, nil)
+			var sr struct {
+				Promises []json.RawMessage `json:"promises"`
+			}
+			if rp.Err != nil || rp.Status != 200 || json.Unmarshal(rp.Body, &sr) != nil {
+				fail(i, "roundtrip:search:http", "search for the exact id answered %d", rp.Status)
+			} else if len(sr.Promises) != 1 {
+				fail(i, "roundtrip:search:count", "search for the exact id %q returned %d promises", clipS(w.Id), len(sr.Promises))
+			} else if d := w.cmpHTTP(sr.Promises[0]); d != "" {
+				fail(i, "roundtrip:search:http", "search result differs: %s", d)
+			}
+			c.rep.Events++
+		}
+		if !pending {
+			continue
+		}
+		// ---- registrations: ids of the awaiting promise and of the subscription are client data too
+		root := genId(r, 1+r.Intn(5), tag+"root.")
+		cbres, err := srv.Callbacks().CreateCallback(ctx, &pb.CreateCallbackRequest{Id: "cb", PromiseId: w.Id, RootPromiseId: root, Timeout: w.Timeout, Recv: &pb.Recv{Recv: &pb.Recv_Logical{Logical: "poll://grp/lid"}}})
+		if err != nil {
+			fail(i, "registration:refused", "callback on %q refused: %v", clipS(w.Id), err)
+		} else if cbres.Callback == nil || cbres.Callback.Id != "__resume:"+root+":"+w.Id || cbres.Callback.PromiseId != w.Id {
+			fail(i, "derived-id:callback", "callback id %v does not embed the ids %q / %q unaltered", cbres.Callback, clipS(root), clipS(w.Id))
+		}
+		subId := genId(r, 1+r.Intn(4), "sub.")
+		rp := srv.JSON("POST", "/subscriptions", nil, map[string]any{"Id": subId, "promiseId": w.Id, "timeout": w.Timeout, "recv": "poll://grp/lid"})
+		if rp.Err != nil || rp.Status != 201 {
+			fail(i, "registration:refused", "subscription on %q answered %d %s", clipS(w.Id), rp.Status, clipS(string(rp.Body)))
+		} else {
+			var sr struct {
+				Callback struct {
+					Id string `json:"id"`
+				} `json:"callback"`
+			}
+			_ = json.Unmarshal(rp.Body, &sr)
+			if sr.Callback.Id != "__notify:"+w.Id+":"+subId {
+				fail(i, "derived-id:subscription", "subscription id %q does not embed %q / %q unaltered", clipS(sr.Callback.Id), clipS(w.Id), clipS(subId))
+			}
+		}
+		// ---- complete through the other protocol
+		w.State = []string{"RESOLVED", "REJECTED", "REJECTED_CANCELED"}[r.Intn(3)]
+		w.VData, w.VHeaders = genBytes(r), genMap(r, "")
+		if r.Intn(2) == 0 {
+			w.KeyU = "u" + fmt.Sprint(r.Intn(1000))
+		}
+		if viaHTTP {
+			var err error
+			var p *pb.Promise
+			val := &pb.Value{Headers: w.VHeaders, Data: w.VData}
+			switch w.State {
+			case "RESOLVED":
+				var x *pb.ResolvePromiseResponse
+				x, err = srv.Promises().ResolvePromise(ctx, &pb.ResolvePromiseRequest{Id: w.Id, IdempotencyKey: w.KeyU, Value: val})
+				if x != nil {
+					p = x.Promise
+				}
+			case "REJECTED":
+				var x *pb.RejectPromiseResponse
+				x, err = srv.Promises().RejectPromise(ctx, &pb.RejectPromiseRequest{Id: w.Id, IdempotencyKey: w.KeyU, Value: val})
+				if x != nil {
+					p = x.Promise
+				}
+			default:
+				var x *pb.CancelPromiseResponse
+				x, err = srv.Promises().CancelPromise(ctx, &pb.CancelPromiseRequest{Id: w.Id, IdempotencyKey: w.KeyU, Value: val})
+				if x != nil {
+					p = x.Promise
+				}
+			}
+			if err != nil {
+				fail(i, "complete:refused:grpc", "completion of %q failed: %v", clipS(w.Id), err)
+				continue
+			}
+			if d := w.cmpPB(p); d != "" {
+				fail(i, "roundtrip:complete-reply:grpc", "completion reply differs: %s", d)
+			}
+		} else {
+			hdr := map[string]string{}
+			if w.KeyU != "" {
+				hdr["idempotency-key"] = w.KeyU
+			}
+			rp := srv.JSON("PATCH", "/promises/"+escPath(w.Id), hdr, map[string]any{"state": w.State, "value": valueJSON(w.VHeaders, w.VData)})
+			if rp.Err != nil || rp.Status != 201 {
+				fail(i, "complete:refused:http", "PATCH /promises/%s answered %d %s", clipS(escPath(w.Id)), rp.Status, clipS(string(rp.Body)))
+				continue
+			}
+			if d := w.cmpHTTP(rp.Body); d != "" {
+				fail(i, "roundtrip:complete-reply:http", "completion reply differs: %s", d)
+			}
+		}
+		readBoth("after completion")
+		recheck = append(recheck, later{w: w})
+		// ---- the notification and the resume message must carry the data unaltered
+		wantNotify := "__notify:" + w.Id + ":" + subId
+		wantResume := "__resume:" + root + ":" + w.Id
+		deadline := time.Now().Add(4 * time.Second)
+		gotNotify, gotResume := false, false
+		for time.Now().Before(deadline) && !(gotNotify && gotResume) {
+			for _, m := range lst.all() {
+				var msg struct {
+					Type    string          `json:"type"`
+					Promise json.RawMessage `json:"promise"`
+					Task    struct {
+						Id      string `json:"id"`
+						Counter int    `json:"counter"`
+					} `json:"task"`
+					Href map[string]string `json:"href"`
+				}
+				if json.Unmarshal([]byte(m), &msg) != nil {
+					continue
+				}
+				if msg.Type == "notify" && !gotNotify {
+					var pp promise.Promise
+					if json.Unmarshal(msg.Promise, &pp) == nil && pp.Id == w.Id {
+						gotNotify = true
+						if d := w.cmpHTTP(msg.Promise); d != "" {
+							fail(i, "roundtrip:notification", "notification body differs: %s", d)
+						}
+					}
+				}
+				if msg.Type == "resume" && msg.Task.Id == wantResume && !gotResume {
+					gotResume = true
+					if !strings.HasSuffix(msg.Href["claim"], "/tasks/claim/"+wantResume+"/"+fmt.Sprint(msg.Task.Counter)) {
+						fail(i, "derived-id:href", "claim href %q does not end with the task id and counter", clipS(msg.Href["claim"]))
+					}
+				}
+			}
+			if !(gotNotify && gotResume) {
+				time.Sleep(100 * time.Millisecond)
+			}
+		}
+		if !gotNotify || !gotResume {
+			c.rep.Hit("messages-not-seen-in-time")
+			_ = wantNotify
+		} else {
+			c.rep.Hit("messages-checked")
+			// claim with the id from the message; the payload carries the promises
+			cr := srv.JSON("POST", "/tasks/claim", nil, map[string]any{"id": wantResume, "counter": 1, "processId": "w", "ttl": 1000})
+			if cr.Status == 201 {
+				var cl struct {
+					Promises map[string]struct {
+						Id   string          `json:"id"`
+						Data json.RawMessage `json:"data"`
+					} `json:"promises"`
+				}
+				_ = json.Unmarshal(cr.Body, &cl)
+				if cl.Promises["leaf"].Id != w.Id || cl.Promises["root"].Id != root {
+					fail(i, "roundtrip:claim", "claim payload names root %q leaf %q, expected %q / %q", clipS(cl.Promises["root"].Id), clipS(cl.Promises["leaf"].Id), clipS(root), clipS(w.Id))
+				} else if d := w.cmpHTTP(cl.Promises["leaf"].Data); d != "" {
+					fail(i, "roundtrip:claim", "claim payload leaf differs: %s", d)
+				}
+				c.rep.Hit("claim-payload-checked")
+			}
+		}
+		// ---- schedules: every field is client data; the derived promise id embeds the schedule id
+		if r.Intn(3) == 0 {
+			sid := genId(r, 1+r.Intn(5), tag+"s.")
+			sw := &schedule.Schedule{Id: sid, Description: genId(r, 3, "desc "), Cron: "* * * * * *", Tags: genMap(r, ""), PromiseId: "{{.id}}.{{.timestamp}}", PromiseTimeout: 3600_000,
+				PromiseParam: promise.Value{Headers: genMap(r, ""), Data: genBytes(r)}, PromiseTags: genMap(r, "")}
+			body := map[string]any{"id": sw.Id, "desc": sw.Description, "cron": sw.Cron, "promiseId": sw.PromiseId, "promiseTimeout": sw.PromiseTimeout, "promiseParam": valueJSON(sw.PromiseParam.Headers, sw.PromiseParam.Data)}
+			if sw.Tags != nil {
+				body["tags"] = sw.Tags
+			}
+			if sw.PromiseTags != nil {
+				body["promiseTags"] = sw.PromiseTags
+			}
+			rp := srv.JSON("POST", "/schedules", nil, body)
+			if rp.Err != nil || rp.Status != 201 {
+				fail(i, "create:refused:schedule", "schedule %q answered %d %s", clipS(sid), rp.Status, clipS(string(rp.Body)))
+			} else {
+				chk := func(stage string) *pb.Schedule {
+					res, err := srv.Schedules().ReadSchedule(ctx, &pb.ReadScheduleRequest{Id: sid})
+					if err != nil {
+						fail(i, "roundtrip:schedule:not-found", "%s: schedule %q not found under its exact spelling: %v", stage, clipS(sid), err)
+						return nil
+					}
+					g := res.Schedule
+					var pd []byte
+					var ph map[string]string
+					if g.PromiseParam != nil {
+						pd, ph = g.PromiseParam.Data, g.PromiseParam.Headers
+					}
+					if g.Id != sw.Id || g.Description != sw.Description || g.Cron != sw.Cron || !mEq(g.Tags, sw.Tags) || g.PromiseId != sw.PromiseId || g.PromiseTimeout != sw.PromiseTimeout || !bEq(pd, sw.PromiseParam.Data) || !mEq(ph, sw.PromiseParam.Headers) || !mEq(g.PromiseTags, sw.PromiseTags) {
+						fail(i, "roundtrip:schedule", "%s: schedule read back as %v, supplied %v", stage, g, sw)
+					}
+					return g
+				}
+				chk("after create")
+				// wait for a firing, then look for the derived promise
+				var last int64
+				for t := 0; t < 40 && last == 0; t++ {
+					time.Sleep(100 * time.Millisecond)
+					if res, err := srv.Schedules().ReadSchedule(ctx, &pb.ReadScheduleRequest{Id: sid}); err == nil {
+						last = res.Schedule.LastRunTime
+					}
+				}
+				if last != 0 {
+					pid := fmt.Sprintf("%s.%d", sid, last)
+					res, err := srv.Promises().ReadPromise(ctx, &pb.ReadPromiseRequest{Id: pid})
+					if err != nil {
+						fail(i, "derived-id:scheduled-promise", "schedule %q fired occurrence %d but no promise %q exists: the derived id does not embed the schedule id unaltered", clipS(sid), last, clipS(pid))
+					} else {
+						wt := map[string]string{}
+						for k, v := range sw.PromiseTags {
+							wt[k] = v
+						}
+						wt["resonate:schedule"] = sid
+						wt["resonate:invocation"] = "true"
+						var pd []byte
+						var ph map[string]string
+						if res.Promise.Param != nil {
+							pd, ph = res.Promise.Param.Data, res.Promise.Param.Headers
+						}
+						if !mEq(res.Promise.Tags, wt) || !bEq(pd, sw.PromiseParam.Data) || !mEq(ph, sw.PromiseParam.Headers) {
+							fail(i, "roundtrip:scheduled-promise", "scheduled promise carries tags %v param %d bytes, the schedule supplied tags %v param %d bytes", res.Promise.Tags, len(pd), wt, len(sw.PromiseParam.Data))
+						}
+						c.rep.Hit("scheduled-promise-checked")
+					}
+				} else {
+					c.rep.Hit("schedule-not-fired-in-time")
+				}
+				srv.Do("DELETE", "/schedules/"+escPath(sid), nil, nil)
+			}
+		}
+		if len(c.rep.Samples) < 3 {
+			c.rep.Sample(map[string]any{"id": clipS(w.Id), "param_bytes": len(w.Data), "headers": w.Headers, "tags": w.Tags, "timeout": w.Timeout, "via": map[bool]string{true: "http", false: "grpc"}[viaHTTP]})
+		}
+	}
+	// ---- after a restart everything must still read back exactly
+	lst.stop()
+	srv.Kill()
+	if err := srv.Start(); err != nil {
+		c.violate("restart:failed", "the server does not come up again on the same database: "+err.Error(), nil)
+		return
+	}
+	for k, l := range recheck {
+		w := l.w
+		rp := srv.Do("GET", "/promises/"+escPath(w.Id), nil, nil)
+		if rp.Err != nil || rp.Status != 200 {
+			c.violate("roundtrip:after-restart:not-found", fmt.Sprintf("promise %q is not found after a restart (HTTP %d)", clipS(w.Id), rp.Status), map[string]any{"k": k})
+		} else if d := w.cmpHTTP(rp.Body); d != "" {
+			c.violate("roundtrip:after-restart", fmt.Sprintf("promise %q differs after a restart: %s", clipS(w.Id), d), map[string]any{"k": k})
+		}
+		c.rep.Events++
+	}
+	c.rep.HitN("rechecked-after-restart", len(recheck))
+}
+
+func valueJSON(h map[string]string, d []byte) map[string]any {
+	v := map[string]any{}
+	if h != nil {
+		v["headers"] = h
+	}
+	if d != nil {
+		v["data"] = d
+	}
+	return v
+}
+
+func headerSafe(s string) bool {
+	for _, r := range s {
+		if r < 32 || r == 127 || r > 126 {
+			return false
+		}
+	}
+	return strings.TrimSpace(s) == s && s != ""
+}
+
+func isLowerASCII(s string) bool {
+	for _, r := range s {
+		if r > 126 || r < 32 || (r >= 'A' && r <= 'Z') {
+			return false
+		}
+	}
+	return true
+}
